@@ -264,6 +264,13 @@ def run_concurrent(n, rng):
                   hold=rng.randint(0, rng.choice([6, 6, 20])),
                   logical=next_logical(addr, k))
              for k in range(ntask)]
+    # a terminal that never went through initialize (gentle_initialize)
+    # has no slot table when its first mappings are requested
+    no_table = rng.random() < 0.12
+    if no_table:
+        plan_[0]["no_slot_table"] = True
+        for p_ in plan_[:3]:
+            p_["start"] = rng.choice([0, 0, 1, 2])
     if rng.random() < 0.5:
         # chained: most tasks start relative to an earlier one
         for k in range(1, ntask):
@@ -278,7 +285,8 @@ def run_concurrent(n, rng):
         bus.attach(ec, loop, b)
         term = Terminal(ec)
         term.position = 9
-        term.fmmu_used = [None] * n
+        if not no_table:
+            term.fmmu_used = [None] * n
         term.pdo_in_off, term.pdo_in_sz = 0x1100, 6
         term.pdo_out_off, term.pdo_out_sz = 0x1000, 4
 
@@ -308,14 +316,18 @@ def run_concurrent(n, rng):
                         await asyncio.sleep(0)
                     t.events.append(("exit", k, idx))
                     mark("exit", k)
-            except (ValueError, IndexError) as ex:
+            except (ValueError, IndexError, AttributeError) as ex:
+                # (AttributeError: a terminal that was taken over without
+                # initialize has no slot table; refusing to map is no
+                # violation)
                 t.events.append(("failed", k, type(ex).__name__,
-                                 list(term.fmmu_used)))
+                                 list(getattr(term, "fmmu_used", None)
+                                      or [])))
             finally:
                 mark("exit", k)
                 mark("done", k)
         await asyncio.gather(*[user(k, p) for k, p in enumerate(plan_)])
-        return list(term.fmmu_used)
+        return list(getattr(term, "fmmu_used", None) or [])
     final = aio.run(main)
     return plan_, t.events, final
 
